@@ -7,6 +7,8 @@
 //!  int32 / int64 / wint                        Desc::int (Map<slice::Iter>: full) / Wrap<Desc>::int (forward)
 //!  dia32 / dia64 / wdia                        Desc::iat (slice::Iter: full)      / Wrap<Desc>::iat (forward)
 //!  icons / curs                                Resources::icons / cursors (FlatMap<result::IntoIter<Directory>, Entries, F>: forward)
+//!  sect                  via=iter|into|wrap    SectionHeaders::iter / IntoIterator for &SectionHeaders / through pelite::PeFile (slice::Iter: full)
+//!  strs                  ty=fc|dc|sc           stringify::{FileChars, DllChars, SectionChars}::to_strs   `impl Clone + Iterator` (FilterMap<Range<u32>>)
 //!
 //! Every input is a one-section PE file written by `pvh::pe` (independent of pelite's structs) with the tables at
 //! fixed offsets of the section; the item text names the item by the file offset of what it points to and its value.
@@ -318,17 +320,98 @@ pub fn in_group(rng: &mut Rng, n: usize, wild: bool, cursors: bool) -> (String, 
 	(format!("{} it={} grp={} exp={}", image(rng, pe64, dirs, &sec), it as u8, grp as u8, join(&exp, ",")), cnt)
 }
 
+// ------------------------------------------------------------------ section headers
+
+/// an image whose section table holds n headers (0..96; every header written explicitly, raw data absent).
+/// Item text: file offset of the header . name bytes . VirtualAddress
+pub fn in_sections(rng: &mut Rng, n: usize, wild: bool) -> (String, usize) {
+	let pe64 = rng.chance(1, 2);
+	// the random part asks for 9..20 items now and then: take the opportunity to go to the limit of 96 sections
+	let n = if n >= 9 { *rng.pick(&[n, n, 95, 96, 96]) } else { n };
+	let mut secs: Vec<Sec> = Vec::new();
+	for i in 0..n {
+		let mut name = [0u8; 8];
+		let len = rng.range(1, 8) as usize;
+		for k in 0..len { name[k] = rng.range(0x41, 0x5a) as u8; }
+		secs.push(Sec { name, va: 0x1000 * (i as u32 + 1) + 4 * rng.below(4) as u32, vs: rng.below(0x1000) as u32, prd: 0, srd: 0, chars: rng.next() as u32 });
+	}
+	let mut spec = ImgSpec { pe64, e_lfanew: *rng.pick(&[0x40u32, 0x80]), soh: *rng.pick(&[0u32, 0x40, 0x100]), soi: 0x100000, image_base: if pe64 { 0x1_4000_0000 } else { 0x40_0000 }, nrva: 16, dirs: vec![(0u32, 0u32); 16], opt_size: 0, nsec_field: n as u16,
+		secs, checksum: 0, magic: if pe64 { 0x20b } else { 0x10b } };
+	// the table follows the optional header: SizeOfOptionalHeader says where (any multiple of 4 at or beyond the standard size)
+	spec.opt_size = spec.std_opt_size() + 4 * rng.below(6) as u16;
+	let mut it = true;
+	let mut cut = 0usize;
+	if wild {
+		match rng.below(8) {
+			0 => { spec.nsec_field = 97 + rng.below(3) as u16; it = false; },          // Insanity
+			1 => if n > 0 { cut = 1 + rng.below(39) as usize; it = false; },           // the last header does not fit the file: Bounds
+			2 => { spec.opt_size += 2; it = false; },                                  // Misaligned table
+			3 => if n > 0 { spec.nsec_field = n as u16 - 1; },                         // one header fewer is declared than written
+			_ => {},
+		}
+	}
+	let declared = (spec.nsec_field as usize).min(n);
+	let hdr = scrambled_header(&spec, rng);
+	let table = spec.sec_table_off() as usize;
+	let exp: Vec<String> = (0..declared).map(|i| format!("{}.{}.{}", table + 40 * i, hex(&spec.secs[i].name), spec.secs[i].va)).collect();
+	// the file ends right behind the table (or inside the last header), or some way behind it
+	let end = table + 40 * n;
+	let len = if cut > 0 { end - cut } else { end.max(spec.e_lfanew as usize + spec.nt_size() as usize + 128) + *rng.pick(&[0usize, 0, 4, 0x200]) };
+	let img = Image { len, fill: if rng.chance(1, 2) { 0 } else { rng.range(1, 1000) as u32 }, hdr, pokes: vec![] };
+	let via = *rng.pick(&["iter", "into", "wrap"]);
+	let cnt = if it { declared } else { 0 };
+	(format!("{} via={} it={} exp={}", img.encode(), via, it as u8, join(&exp, ",")), cnt)
+}
+
+// ------------------------------------------------------------------ flags!::to_strs
+
+/// the identifiers of the flag bits, from the PE/COFF specification (winnt.h) and pelite's placeholders for the reserved bits;
+/// written down here independently of pelite's flags! tables
+const FC_NAMES: [&str; 16] = ["IMAGE_FILE_RELOCS_STRIPPED", "IMAGE_FILE_EXECUTABLE_IMAGE", "IMAGE_FILE_LINE_NUMS_STRIPPED", "IMAGE_FILE_LOCAL_SYMS_STRIPPED",
+	"IMAGE_FILE_AGGRESIVE_WS_TRIM", "IMAGE_FILE_LARGE_ADDRESS_AWARE", "IMAGE_FILE_6", "IMAGE_FILE_BYTES_REVERSED_LO", "IMAGE_FILE_32BIT_MACHINE",
+	"IMAGE_FILE_DEBUG_STRIPPED", "IMAGE_FILE_REMOVABLE_RUN_FROM_SWAP", "IMAGE_FILE_NET_RUN_FROM_SWAP", "IMAGE_FILE_SYSTEM", "IMAGE_FILE_DLL",
+	"IMAGE_FILE_UP_SYSTEM_ONLY", "IMAGE_FILE_BYTES_REVERSED_HI"];
+const DC_NAMES: [&str; 16] = ["IMAGE_DLLCHARACTERISTICS_0", "IMAGE_DLLCHARACTERISTICS_1", "IMAGE_DLLCHARACTERISTICS_2", "IMAGE_DLLCHARACTERISTICS_3",
+	"IMAGE_DLLCHARACTERISTICS_4", "IMAGE_DLLCHARACTERISTICS_HIGH_ENTROPY_VA", "IMAGE_DLLCHARACTERISTICS_DYNAMIC_BASE", "IMAGE_DLLCHARACTERISTICS_FORCE_INTEGRITY",
+	"IMAGE_DLLCHARACTERISTICS_NX_COMPAT", "IMAGE_DLLCHARACTERISTICS_NO_ISOLATION", "IMAGE_DLLCHARACTERISTICS_NO_SEH", "IMAGE_DLLCHARACTERISTICS_NO_BIND",
+	"IMAGE_DLLCHARACTERISTICS_APPCONTAINER", "IMAGE_DLLCHARACTERISTICS_WDM_DRIVER", "IMAGE_DLLCHARACTERISTICS_GUARD_CF", "IMAGE_DLLCHARACTERISTICS_TERMINAL_SERVER_AWARE"];
+const SC_NAMES: [&str; 32] = ["IMAGE_SCN_0", "IMAGE_SCN_1", "IMAGE_SCN_2", "IMAGE_SCN_TYPE_NO_PAD", "IMAGE_SCN_4", "IMAGE_SCN_CNT_CODE", "IMAGE_SCN_CNT_INITIALIZED_DATA",
+	"IMAGE_SCN_CNT_UNINITIALIZED_DATA", "IMAGE_SCN_LNK_OTHER", "IMAGE_SCN_LNK_INFO", "IMAGE_SCN_10", "IMAGE_SCN_LNK_REMOVE", "IMAGE_SCN_LNK_COMDAT", "IMAGE_SCN_13",
+	"IMAGE_SCN_NO_DEFER_SPEC_EXC", "IMAGE_SCN_GPREL", "IMAGE_SCN_16", "IMAGE_SCN_MEM_PURGEABLE", "IMAGE_SCN_MEM_LOCKED", "IMAGE_SCN_MEM_PRELOAD", "IMAGE_SCN_ALIGN_1",
+	"IMAGE_SCN_ALIGN_2", "IMAGE_SCN_ALIGN_4", "IMAGE_SCN_ALIGN_8", "IMAGE_SCN_LNK_NRELOC_OVFL", "IMAGE_SCN_MEM_DISCARDABLE", "IMAGE_SCN_MEM_NOT_CACHED",
+	"IMAGE_SCN_MEM_NOT_PAGED", "IMAGE_SCN_MEM_SHARED", "IMAGE_SCN_MEM_EXECUTE", "IMAGE_SCN_MEM_READ", "IMAGE_SCN_MEM_WRITE"];
+
+/// a flags value with exactly min(n, bits) bits set (bit 0 and the top bit among them more often than chance), or any value
+pub fn in_strs(rng: &mut Rng, n: usize, wild: bool) -> (String, usize) {
+	let ty = if n > 16 { "sc" } else { *rng.pick(&["fc", "dc", "sc"]) };
+	let bits: u32 = if ty == "sc" { 32 } else { 16 };
+	let mask: u64 = (1u64 << bits) - 1;
+	let mut v: u64 = 0;
+	if wild {
+		v = match rng.below(6) { 0 => 0, 1 => mask, 2 => 1, 3 => 1 << (bits - 1), _ => rng.next() & mask };
+	}
+	else {
+		let want = n.min(bits as usize);
+		if want > 0 && rng.chance(1, 2) { v |= 1; }
+		if want > 1 && rng.chance(1, 2) { v |= 1 << (bits - 1); }
+		while (v.count_ones() as usize) < want { v |= 1 << rng.below(bits as u64); }
+	}
+	let tab: &[&str] = match ty { "fc" => &FC_NAMES, "dc" => &DC_NAMES, _ => &SC_NAMES };
+	(format!("ty={} value={} bits={} it=1 tab={}", ty, v, bits, tab.join(",")), v.count_ones() as usize)
+}
+
 // ------------------------------------------------------------------ families
 
 /// (kind, sel) of the second part, in the order of the exhaustive enumeration
-pub const FAMS: [(&str, &str); 23] = [
+pub const FAMS: [(&str, &str); 25] = [
 	("exp32", "iter"), ("exp32", "names"), ("exp32", "nidx"), ("exp64", "iter"), ("exp64", "names"), ("exp64", "nidx"),
 	("wexp", "iter"), ("wexp", "names"), ("wexp", "nidx"),
 	("res", "all"), ("res", "named"), ("res", "id"),
 	("iat32", ""), ("iat64", ""), ("wiat", ""), ("int32", ""), ("int64", ""), ("wint", ""), ("dia32", ""), ("dia64", ""), ("wdia", ""),
 	("icons", ""), ("curs", ""),
+	("sect", ""), ("strs", ""),
 ];
-pub fn is_full(kind: &str) -> bool { matches!(kind, "res" | "iat32" | "iat64" | "int32" | "int64" | "dia32" | "dia64") }
+pub fn is_full(kind: &str) -> bool { matches!(kind, "res" | "iat32" | "iat64" | "int32" | "int64" | "dia32" | "dia64" | "sect") }
 
 pub fn make_input(rng: &mut Rng, kind: &str, sel: &str, n: usize, wild: bool) -> Option<(String, usize)> {
 	Some(match kind {
@@ -347,6 +430,8 @@ pub fn make_input(rng: &mut Rng, kind: &str, sel: &str, n: usize, wild: bool) ->
 		"wdia" => { let p = rng.chance(1, 2); in_desc(rng, n, wild, p, 1) },
 		"icons" => in_group(rng, n, wild, false),
 		"curs" => in_group(rng, n, wild, true),
+		"sect" => in_sections(rng, n, wild),
+		"strs" => in_strs(rng, n, wild),
 		_ => return None,
 	})
 }
@@ -416,6 +501,15 @@ macro_rules! imports_of {
 
 pub fn run(case: &str, kind: &str, hist: &str) -> Option<String> {
 	if !FAMS.iter().any(|(k, _)| *k == kind) { return None; }
+	if kind == "strs" {
+		use pelite::stringify::{DllChars, FileChars, SectionChars};
+		let v: u32 = field(case, "value").parse().expect("harness: value");
+		return Some(match field(case, "ty") {
+			"fc" => run_fwd(&|| FileChars(v as u16).to_strs(), &|s| s.to_string(), hist),
+			"dc" => run_fwd(&|| DllChars(v as u16).to_strs(), &|s| s.to_string(), hist),
+			_ => run_fwd(&|| SectionChars(v).to_strs(), &|s| s.to_string(), hist),
+		});
+	}
 	let img = Image::decode(case);
 	let bytes = img.bytes();
 	let buf = Aligned::new(&bytes, 0);
@@ -444,6 +538,29 @@ pub fn run(case: &str, kind: &str, hist: &str) -> Option<String> {
 				"all" => run_full(&|| root.entries(), &show, hist),
 				"named" => run_full(&|| root.named_entries(), &show, hist),
 				_ => run_full(&|| root.id_entries(), &show, hist),
+			}
+		},
+		"sect" => {
+			// a constructor error is the answer "no iterator" here (the section count and the table's place are what varies)
+			let show = |h: &pelite::image::IMAGE_SECTION_HEADER| format!("{}.{}.{}", h as *const _ as usize - base, hex(&h.Name), h.VirtualAddress);
+			match field(case, "via") {
+				"wrap" => {
+					let file = match pelite::PeFile::from_bytes(b) { Ok(f) => f, Err(e) => return Some(format!("noiter={:?}", e)) };
+					let sh = file.section_headers();
+					run_full(&|| sh.iter(), &|s| show(&**s), hist)
+				},
+				via => {
+					let magic = { let e = u32::from_le_bytes([b[60], b[61], b[62], b[63]]) as usize; u16::from_le_bytes([b[e + 24], b[e + 25]]) };
+					let sh = if magic == 0x20b {
+						use pelite::pe64::{Pe, PeFile};
+						match PeFile::from_bytes(b) { Ok(f) => f.section_headers(), Err(e) => return Some(format!("noiter={:?}", e)) }
+					}
+					else {
+						use pelite::pe32::{Pe, PeFile};
+						match PeFile::from_bytes(b) { Ok(f) => f.section_headers(), Err(e) => return Some(format!("noiter={:?}", e)) }
+					};
+					if via == "into" { run_full(&|| sh.into_iter(), &|s| show(&**s), hist) } else { run_full(&|| sh.iter(), &|s| show(&**s), hist) }
+				},
 			}
 		},
 		"icons" | "curs" => {
